@@ -185,9 +185,6 @@ func times24(num string) (string, bool) {
 	if ip == "" && fp == "" {
 		return "", false
 	}
-	if len(ip)+len(fp) > 60 {
-		return "", false
-	}
 	var n big.Int
 	if _, ok := n.SetString("0"+ip+fp, 10); !ok {
 		return "", false
@@ -221,7 +218,7 @@ func rewriteDays(s string) (out string, hasDay bool, fracDays int, ok bool) {
 		if tk.unit == "d" {
 			h, good := times24(tk.num)
 			if !good {
-				// "." alone or an absurdly long literal: keep the term, the standard parser rejects "d"
+				// "." alone: keep the term, the standard parser rejects "d"
 				sb.WriteString(tk.num + tk.unit)
 				continue
 			}
@@ -381,7 +378,7 @@ func genDurString() *rapid.Generator[string] {
 func TestParseAgainstStdlib(t *testing.T) {
 	for _, s := range []string{"", "0", "-0", "+0", "-", "+", ".", "1", "1d", "1.5d", "-1.5d", "106751d", "106752d", "106751d23h47m16s854ms775µs807ns",
 		"-106751d23h47m16s854ms775µs808ns", "106751d23h47m16s854ms775µs808ns", "1d1d", "0d", ".d", "1.d", ".5d", "1dd", "1 d", "1D",
-		"9223372036854775807ns", "9223372036854775808ns", "-9223372036854775808ns", "2562047h47m16.854775807s", "1e3s", "1h1", "1us", "1µs", "1μs"} {
+		"000000000000000000000000000000000000.0000000000000000000000000d", "9223372036854775807ns", "9223372036854775808ns", "-9223372036854775808ns", "2562047h47m16.854775807s", "1e3s", "1h1", "1us", "1µs", "1μs"} {
 		checkParse(t, "TestParseAgainstStdlib", s)
 	}
 	rapid.Check(t, func(t *rapid.T) {
